@@ -7,6 +7,7 @@ no-legal-move test precedes the quiescence switch and the table probe;
 R5 futility/null-move pruning are exempt for checks; R6 constant relations of
 the mate encoding (compiled witness). Not decided: that an announced mate is
 forced/minimal (a game-tree statement)."""
+import re
 from facts import AnalysisBroken
 from prog import walk, kids, short, access_kind
 from rules.common import (strip_casts, const_of, guard_facts, thread_entries, sccs, expr_key,
@@ -318,6 +319,9 @@ def check(ctx):
     # ---- R7b what the nodes decide before they look at moves: decided for every valuation of the leading conditions -----
     _entry_table(ctx, p)
 
+    # ---- R8 the line kept is the line of the best move ----------------------------------------------------------------------
+    _best_line(ctx, p)
+
     # ---- R6 witness ------------------------------------------------------------------------------
     n_as, fails = compile_witness('C08.cc')
     for (fn_, line, msg) in fails:
@@ -327,6 +331,110 @@ def check(ctx):
                site='witness/C08.cc', sample=(i < 2))
     ctx.floor('C08.R6.witness', n_as, 10, 'static_asserts')
     ctx.note('not decided: that a printed mate distance is forced or minimal (needs a game-tree solver)')
+
+
+def _best_line(ctx, p):
+    """search()/quiescence_search(): a move's line is spliced into the node's PV exactly when its value exceeds a running
+    maximum that is then raised to that value (so the PV head is a move of maximal value: a mate in one at the root is the
+    head), and nothing overwrites the PV afterwards unless no move was ever spliced (the fallback `best_move == NO_MOVE`)."""
+    from rules.norm import Norm
+    n_spl = 0
+    for name in ('engine::Search::search', 'engine::Search::quiescence_search'):
+        f = p.fn(name)
+        pinfo = [q for q in f.params if q['name'] == 'info']
+        if not pinfo:
+            raise AnalysisBroken('C08: %s has no frame parameter' % short(f.name))
+        nm = Norm(f, keep=('info',))
+        own = lambda call, i=1: strip_casts(kids(call)[i]).get('ref', {}).get('id') == pinfo[0]['id']
+        splices = [n for n, cfid, cn in f.calls() if cn == 'engine::add_new_move_to_pv_list' and own(n)]
+        over = [n for n, cfid, cn in f.calls() if cn in ('engine::set_new_pv_list', 'engine::clear_pv_list') and own(n)]
+        if not splices:
+            raise AnalysisBroken('C08: %s no longer splices a child PV into its own frame' % short(f.name))
+        markers = None              # locals set to the spliced move next to every splice
+        for sp in splices:
+            n_spl += 1
+            mv = strip_casts(kids(sp)[2])
+            mid = (mv.get('ref') or {}).get('id')
+            blk = f.parent(sp)
+            while blk is not None and blk['k'] != 'CompoundStmt':
+                blk = f.parent(blk)
+            sib = kids(blk) if blk is not None else []
+            here = set()
+            raised = []
+            for st in sib:
+                st0 = st
+                if st0 is None:
+                    continue
+                if st0['k'] == 'BinaryOperator' and st0.get('op') == '=':
+                    l, r = [strip_casts(x) for x in kids(st0)]
+                    if (r.get('ref') or {}).get('id') == mid and mid is not None and (l.get('ref') or {}).get('k') == 'Local':
+                        here.add(l['ref']['id'])
+                    raised.append((nm.s(l), nm.s(r)))
+            markers = here if markers is None else (markers & here)
+            # the guard: value > running maximum, and the maximum is raised to the value under that guard
+            gf = guard_facts(f, sp)
+            strict, weak = [], []
+            for c_, t_ in gf:
+                c0 = strip_casts(c_)
+                if c0['k'] == 'BinaryOperator' and c0.get('op') in ('>', '<', '>=', '<='):
+                    a_, b_ = nm.s(kids(c0)[0]), nm.s(kids(c0)[1])
+                    op = c0['op']
+                    if not t_:
+                        op = {'>': '<=', '<': '>=', '>=': '<', '<=': '>'}[op]
+                    if op == '>':
+                        strict.append((a_, b_))
+                    elif op == '<':
+                        strict.append((b_, a_))
+                    weak.append((a_, b_) if op in ('>', '>=') else (b_, a_))
+            ups = []
+            for big, small in strict:
+                # is `small = big` assigned under the same guard (in this block or an enclosing one up to the comparison)
+                for a in [blk] + [x for x in f.ancestors(blk) if x['k'] == 'CompoundStmt']:
+                    for st in kids(a):
+                        if st is not None and st['k'] == 'BinaryOperator' and st.get('op') == '=' and \
+                                nm.s(kids(st)[0]) == small and nm.s(kids(st)[1]) == big:
+                            ups.append((small, big))
+            capped = [(b2, s2) for b2, s2 in weak if any(s2 == big for small, big in ups)]
+            ctx.ob('C08.R8.splice-is-argmax', '%s:%d' % (short(f.name), sp.get('l', 0)), bool(ups) and not capped,
+                   'a move\'s line becomes the PV only when its value exceeds a running maximum that is raised to it under the same guard '
+                   'and is not required to stay below anything (strict comparisons holding at the splice: %s; maxima raised: %s; '
+                   'upper bounds on the value: %s)' % (strict, sorted(set(ups)), capped), site=f.loc(sp))
+        # overwrites after a splice
+        c = f.cfg
+        for ov in over:
+            reach = any(c.path_avoiding(c.position(sp), set(), target={ov['i']}) is not None for sp in splices)
+            if not reach:
+                continue
+            ok = False
+            for c_, t_ in guard_facts(f, ov):
+                c0 = strip_casts(c_)
+                if c0['k'] == 'BinaryOperator' and c0.get('op') in ('==', '!='):
+                    a_, b_ = [strip_casts(x) for x in kids(c0)]
+                    for x, y in ((a_, b_), (b_, a_)):
+                        if (x.get('ref') or {}).get('id') in (markers or set()) and const_of(y) == 0 and (c0['op'] == '==') == t_:
+                            # and the marker starts as NO_MOVE and is otherwise only set next to a splice
+                            ok = True
+            ctx.ob('C08.R8.pv-not-overwritten', '%s:%d' % (short(f.name), ov.get('l', 0)), ok,
+                   'a PV write that can follow a splice happens only when no move was spliced (a local set to the move next to every '
+                   'splice is still NO_MOVE there)', site=f.loc(ov))
+    ctx.floor('C08.R8.splice-is-argmax', n_spl, 2, 'PV splices')
+
+
+class _StopVal(dict):
+    """a valuation in which every way of reading the stop flag (conversion, load(), load(order)) has the flag's value"""
+
+    @staticmethod
+    def _k(k):
+        return 'stop_search' if isinstance(k, str) and re.fullmatch(r'\(?stop_search(\.operator bool\(\)|\.load\([^()]*\))?\)?', k) else k
+
+    def __contains__(self, k):
+        return dict.__contains__(self, self._k(k))
+
+    def __getitem__(self, k):
+        return dict.__getitem__(self, self._k(k))
+
+    def get(self, k, d=None):
+        return dict.get(self, self._k(k), d)
 
 
 def _entry_table(ctx, p):
@@ -380,8 +488,8 @@ def _entry_table(ctx, p):
 
         bad, n = [], 0
         for stop, lim, draw, rep, root, d0 in itertools.product((0, 1), repeat=6):
-            val = {'check_limits()': lim, 'stop_search.operator bool()': stop, 'stop_search': stop, 'position.is_draw()': draw,
-                   'position.is_repeated()': rep, 'info._ply': 0 if root else 3, 'depth': 0 if d0 else 3}
+            val = _StopVal({'check_limits()': lim, 'stop_search': stop, 'position.is_draw()': draw,
+                            'position.is_repeated()': rep, 'info._ply': 0 if root else 3, 'depth': 0 if d0 else 3})
             try:
                 got = outcome(val)
             except Unknown as e:
